@@ -21,6 +21,10 @@ import (
 
 const ModPath = "github.com/robustirc/robustirc"
 
+// minModulePkgs guards against judging a tree of which only a part was loaded (lowered by the inliner's own tests, which
+// load small synthetic modules).
+var minModulePkgs = 15
+
 // Program is the loaded repository.
 type Program struct {
 	Dir   string
@@ -37,8 +41,9 @@ type Program struct {
 	AllFuncs  []*FuncInfo // every function/method declared in non-test files of module packages
 
 	expanded    []expandedRange
-	Inlined     []string // private helpers that were expanded at all their call sites (inline.go)
-	InlineNotes []string // expansions that were planned but not used
+	Expanded    map[string][]byte // the overlay the program was loaded from: expanded files by name (nil when nothing was expanded)
+	Inlined     []string          // private helpers that were expanded at all their call sites (inline.go)
+	InlineNotes []string          // expansions that were planned but not used
 
 	fieldAlias  map[string]*types.Var // re-identified renamed anchor fields, by "pkg.Type.field" (anchors.go)
 	AnchorNotes []string              // what was re-identified, for the evidence
@@ -154,7 +159,7 @@ func Load(dir string, overlay map[string][]byte) (*Program, error) {
 	var notes []string
 	skipPkg := map[string]bool{}
 	for round := 1; round <= maxInlineRounds; round++ {
-		ov, names := p.inlinePass(overlay, skipPkg)
+		ov, names := p.inlinePass(overlay, skipPkg, round)
 		if len(names) == 0 {
 			break
 		}
@@ -196,6 +201,7 @@ func Load(dir string, overlay map[string][]byte) (*Program, error) {
 		p, overlay = q, ov
 	}
 	p.InlineNotes = notes
+	p.Expanded = overlay
 	if d := os.Getenv("VERIF_INLINE_DUMP"); d != "" {
 		for f, b := range overlay {
 			os.WriteFile(filepath.Join(d, strings.ReplaceAll(strings.TrimPrefix(f, dir+"/"), "/", "__")), b, 0o644)
@@ -310,7 +316,7 @@ func loadOnce(dir string, overlay map[string][]byte) (*Program, error) {
 			}
 		}
 	}
-	if len(p.Pkgs) < 15 {
+	if len(p.Pkgs) < minModulePkgs {
 		return nil, fmt.Errorf("only %d module packages loaded from %s (expected >= 15)", len(p.Pkgs), dir)
 	}
 	sort.Slice(p.Pkgs, func(i, j int) bool { return p.Pkgs[i].PkgPath < p.Pkgs[j].PkgPath })
